@@ -4,6 +4,8 @@ use serde_json::Value;
 use crate::engine::{CheckResult, Ctx, Evidence, Found};
 
 pub mod c01;
+pub mod c02;
+pub mod c03;
 
 pub trait Property: Sync {
     fn id(&self) -> &'static str;
@@ -23,7 +25,7 @@ pub trait Property: Sync {
 }
 
 pub fn all() -> Vec<Box<dyn Property>> {
-    vec![Box::new(c01::C01)]
+    vec![Box::new(c01::C01), Box::new(c02::C02), Box::new(c03::C03)]
 }
 
 pub fn get(id: &str) -> Option<Box<dyn Property>> {
